@@ -11,4 +11,4 @@ From EV.gen Require GenCL.
 Definition cl_run_case W := CLModel.run_case W GenCL.remove_checks_removed GenCL.insert_checks_removed GenCL.owns_checks_removed.
 Definition cl_legacy_run_case W := CLModel.run_case W false false false.
 Definition cl_spec_run_case := CLSpec.s_run_case.
-Extraction "../ocaml/gen/models.ml" cl_run_case cl_legacy_run_case cl_spec_run_case.
+Extraction "../ocaml/gen/cl_model.ml" cl_run_case cl_legacy_run_case cl_spec_run_case.
